@@ -135,6 +135,19 @@ def invoke(args, string=None, cpu_s=10.0):
     return Outcome(rc, p)
 
 
+class ApiWatchdog(Exception):
+    """A call through PyMarkdownApi used more CPU time than allowed: inconclusive for that call."""
+
+
+def guarded(fn, cpu_s=20.0):
+    """Run fn() (a PyMarkdownApi call) under the same CPU-time watchdog as invoke()."""
+    try:
+        with pm.cpu_limit(cpu_s):
+            return fn()
+    except pm.CpuWatchdog:
+        raise ApiWatchdog() from None
+
+
 def rule_args(only=None, disable=None, enable=None):
     a = []
     if only is not None:
